@@ -92,8 +92,23 @@ C11_Step == C11_Valid /\ C11_Starts /\ C11_SameState /\ C11_Behaves /\ C11_Survi
 \* reader goroutines serve queries against the node while it executes; the reference twin executes the same requests alone
 Concurrent == hist.cfg.family = "concurrency"
 AbciKinds == {"BeginBlock", "DeliverTx", "CheckTx", "EndBlock", "Commit"}
+\* what the consensus engine sees of a call; the remaining observations (digests of the query view and of the export) are what
+\* API clients see
+ConsFields == {"code", "gas", "tagsD", "data", "updates", "hash", "height"}
+ConsDiff == PairDiff \cap ConsFields
+Diverged == "diverged" \in DOMAIN hist /\ hist.diverged
+PoolTradeTypes == {"SellSwapPool", "BuySwapPool", "SellAllSwapPool", "AddLimitOrder", "RemoveLimitOrder", "SellCoin", "BuyCoin", "SellAllCoin"}
+\* only the first divergence of a scenario is judged: everything after it is its consequence
 C25_Same ==
-   Clause("C25", "SameResponsesAndHashesUnderQueries", HasPair /\ Concurrent, PairDiff = {}, PairDescr)
+   Clause("C25", "SameResponsesAndHashesUnderQueries", HasPair /\ Concurrent /\ ~Diverged, ConsDiff = {},
+          [at |-> Where, fields |-> [f \in ConsDiff |-> <<ev'.obs[f], ev'.ideal[f]>>],
+           firstField |-> (IF ConsDiff = {} THEN "" ELSE CHOOSE f \in ConsDiff : TRUE),
+           txType |-> (IF "tx" \in DOMAIN ev' THEN ev'.tx.type ELSE ""),
+           cause |-> (IF IsKind("DeliverTx") /\ ev'.tx.type \in PoolTradeTypes /\ "tagsD" \in ConsDiff /\ "code" \notin ConsDiff
+                      THEN "pool-trade-result-differs" ELSE "other")])
+\* diagnostic: what queries show (state digest through the read API, export digest) is the same as on a node without query load
+C25_QueryView ==
+   Clause("C25", "QueryViewUnchangedByQueries", HasPair /\ Concurrent /\ ~Diverged /\ ConsDiff = {}, PairDiff = {}, PairDescr)
 C25_NoCrash ==
    Clause("C25", "ExecutionSurvivesQueries", Concurrent /\ ev'.kind \in AbciKinds \cup {"Fatal"},
           ev'.panic = "" /\ ev'.kind # "Fatal",
@@ -102,7 +117,7 @@ C25_QueriesSurvive ==
    Clause("C25", "QueriesDoNotPanic", Concurrent /\ ev'.kind \in AbciKinds \cup {"Queries"},
           "queryPanic" \notin DOMAIN ev',
           [at |-> Where, panic |-> (IF "queryPanic" \in DOMAIN ev' THEN ev'.queryPanic ELSE "")])
-C25_Step == C25_Same /\ C25_NoCrash /\ C25_QueriesSurvive
+C25_Step == C25_Same /\ C25_QueryView /\ C25_NoCrash /\ C25_QueriesSurvive
 
 SyncStep == C08_Step /\ C29_Step /\ C11_Step /\ C25_Step
 =============================================================================
